@@ -156,6 +156,59 @@ fn body_uint<const B: usize, const L: usize>(c: &Case, rec: &mut Rec) -> R {
     Ok(())
 }
 
+/// Complete enumeration over a small limb alphabet: every modulus with the given top limb and
+/// alphabet limbs below (lowest limb odd), every a < m from the alphabet, b in {a, m - 1, a with
+/// its limbs reversed}. Carry words that are exactly 0 / u64::MAX in several positions at once
+/// (several exact coincidences) only occur for such operands.
+fn enum_alphabet(n: usize, alpha: &'static [u64], top: u64, f: &mut dyn FnMut(&Case) -> R) -> R {
+    let k = alpha.len();
+    let count = |len: usize| (k as u64).pow(len as u32);
+    let word = |mut idx: u64, len: usize| -> Vec<u64> {
+        let mut v = Vec::with_capacity(len);
+        for _ in 0..len {
+            v.push(alpha[(idx % k as u64) as usize]);
+            idx /= k as u64;
+        }
+        v
+    };
+    for mi in 0..count(n - 1) {
+        let mut m = word(mi, n - 1);
+        m.push(top);
+        if m[0] & 1 == 0 {
+            continue;
+        }
+        let mb = big(&m);
+        if mb < BigUint::from(3u32) {
+            continue;
+        }
+        let m1 = limbs_of(&(&mb - 1u32), n);
+        for ai in 0..count(n) {
+            let a = word(ai, n);
+            if big(&a) >= mb {
+                continue;
+            }
+            let mut rev = a.clone();
+            rev.reverse();
+            f(&Case::new().l(a.clone()).l(a.clone()).l(m.clone()))?;
+            f(&Case::new().l(a.clone()).l(m1.clone()).l(m.clone()))?;
+            if big(&rev) < mb && rev != a {
+                f(&Case::new().l(a).l(rev).l(m.clone()))?;
+            }
+        }
+    }
+    Ok(())
+}
+
+const A8: &[u64] = &[0, 1, 2, (1 << 63) - 1, 1 << 63, (1 << 63) + 1, u64::MAX - 1, u64::MAX];
+const A5: &[u64] = &[0, 1, 1 << 63, u64::MAX - 1, u64::MAX];
+const A4: &[u64] = &[1, 1 << 63, u64::MAX - 1, u64::MAX];
+
+macro_rules! reg_alphabet {
+    ($jobs:expr, $n:literal, $alpha:expr, [$($top:expr),*]) => {
+        $( $jobs.enumerate("redc_limb_alphabet", 64 * $n, move |f| enum_alphabet($n, $alpha, $top, f), body_alg::<{ 64 * $n }, $n>); )*
+    };
+}
+
 macro_rules! reg_alg {
     ($jobs:expr, $cases:expr; [$($n:literal),*]) => {
         $( $jobs.gen("algorithms_redc", 64 * $n, $cases, move || strat($n, 64 * $n), body_alg::<{ 64 * $n }, $n>); )*
@@ -175,7 +228,7 @@ fn main() {
     }
     let spec = PropSpec {
         id: "C11",
-        rule_text: "tuples (a, b, m) for every limb count N = 1..16 (slice-level functions) and for 18 widths with LIMBS 1..9, aligned and not (Uint methods): m odd >= 3 with top limb from {0 (short modulus), 1, 2^62-2, 2^62-1, 2^62, 2^62+1, 2^63-2, 2^63-1, 2^63, 2^63+1, u64::MAX-1, u64::MAX, floor(2^64/3)+-{0..3}, 2*floor(2^64/3)+-{0..3}, dense in [2^62,2^63), alphabet} and low limbs that are drawn from the alphabet, all ones, or all ones above a lowest limb of 1 / a drawn lowest limb; a, b from {0, 1, 2, m-1, m-2, (m+-1)/2, R mod m, R^2 mod m, alphabet mod m}; inv = -m^-1 mod 2^64 from the harness's own Newton iteration. Oracle: result < m and result * 2^(64N) = a*b (mod m) in num-bigint. Non-trivial: a, b != 0 and a*b >= m; hook counters report extra-carry / final-subtraction paths. Distinct by inputs.",
+        rule_text: "tuples (a, b, m) for every limb count N = 1..16 (slice-level functions) and for 18 widths with LIMBS 1..9, aligned and not (Uint methods): m odd >= 3 with top limb from {0 (short modulus), 1, 2^62-2, 2^62-1, 2^62, 2^62+1, 2^63-2, 2^63-1, 2^63, 2^63+1, u64::MAX-1, u64::MAX, floor(2^64/3)+-{0..3}, 2*floor(2^64/3)+-{0..3}, dense in [2^62,2^63), alphabet} and low limbs that are drawn from the alphabet, all ones, or all ones above a lowest limb of 1 / a drawn lowest limb; a, b from {0, 1, 2, m-1, m-2, (m+-1)/2, R mod m, R^2 mod m, alphabet mod m}; inv = -m^-1 mod 2^64 from the harness's own Newton iteration; complete enumerations over limb alphabets (rule redc_limb_alphabet: N = 2, 3 over {0,1,2,2^63-1,2^63,2^63+1,MAX-1,MAX}, N = 4 over {0,1,2^63,MAX-1,MAX}, N = 5 over {1,2^63,MAX-1,MAX}; all moduli with 6-8 top limbs, every a < m, b in {a, m-1, reversed a}). Oracle: result < m and result * 2^(64N) = a*b (mod m) in num-bigint. Non-trivial: a, b != 0 and a*b >= m; hook counters report extra-carry / final-subtraction paths. Distinct by inputs.",
         assumptions: vec![
             "num-bigint arithmetic is correct (oracle)",
             "inputs satisfy the documented preconditions a, b < m, m odd, inv = -m^-1 mod 2^64",
@@ -187,6 +240,10 @@ fn main() {
         |jobs, _| {
             reg_alg!(jobs, 10000; [1, 2, 3, 4, 5, 6, 7, 8, 9, 10, 11, 12, 13, 14, 15, 16]);
             reg_uint!(jobs, 6000; [2, 7, 63, 64, 65, 127, 128, 129, 190, 192, 255, 256, 257, 320, 384, 512, 535, 1024]);
+            reg_alphabet!(jobs, 2, A8, [1, (1u64 << 62) - 1, 1u64 << 62, (1u64 << 63) - 1, 1u64 << 63, u64::MAX / 3, u64::MAX - 1, u64::MAX]);
+            reg_alphabet!(jobs, 3, A8, [1, (1u64 << 62) - 1, 1u64 << 62, (1u64 << 63) - 1, 1u64 << 63, u64::MAX / 3, u64::MAX - 1, u64::MAX]);
+            reg_alphabet!(jobs, 4, A5, [(1u64 << 62) - 1, (1u64 << 63) - 1, 1u64 << 63, u64::MAX / 3, u64::MAX - 1, u64::MAX]);
+            reg_alphabet!(jobs, 5, A4, [(1u64 << 63) - 1, 1u64 << 63, u64::MAX - 1, u64::MAX]);
         },
         |_| Map::new(),
     );
